@@ -10,9 +10,17 @@ if [ "$FULL" = "--full" ]; then
   (cd /tmp && PYTHONPATH=/repo timeout 900 /venv/bin/python "$D/demo.py" >/tmp/demo_clean.log 2>&1); echo "demo on clean tree: exit $?"
 fi
 git apply "$D/patch.diff"
-restore() { cd /repo && git checkout -- . ; }
+SRC=/repo/thejoker/src; SO=fast_likelihood.cpython-312-x86_64-linux-gnu.so
+restore() { cd /repo && git checkout -- . ; if [ -f /tmp/try_mutant_c.bak ]; then mv /tmp/try_mutant_c.bak $SRC/fast_likelihood.c; mv /tmp/try_mutant_so.bak $SRC/$SO; fi; cd /verif && git checkout -- evidence 2>/dev/null; }
 trap restore EXIT
-if [ -f "$D/c_patch.diff" ]; then echo "NOTE: has c_patch.diff (generated C) - apply manually if needed"; fi
+if [ -f "$D/c_patch.diff" ]; then
+  # the change also edits the generated C (git-ignored): apply it to /repo's copy, rebuild the extension in place, restore both afterwards
+  cp $SRC/fast_likelihood.c /tmp/try_mutant_c.bak; cp $SRC/$SO /tmp/try_mutant_so.bak
+  (cd $SRC && patch -s fast_likelihood.c < "$D/c_patch.diff") || { echo "C PATCH DOES NOT APPLY"; exit 7; }
+  cmp -s $SRC/fast_likelihood.c /tmp/try_mutant_c.bak && { echo "C PATCH CHANGED NOTHING"; exit 7; }
+  (cd $SRC && gcc -O2 -shared -fPIC --std=gnu99 -w -I$(/venv/bin/python -c "import sysconfig;print(sysconfig.get_paths()['include'])") -I$(/venv/bin/python -c "import numpy;print(numpy.get_include())") -I/venv/lib/python3.12/site-packages/twobody fast_likelihood.c /venv/lib/python3.12/site-packages/twobody/src/twobody.c -o $SO -lm) || { echo "C BUILD FAILED"; exit 6; }
+  echo "applied c_patch.diff and rebuilt the extension in /repo (restored on exit)"
+fi
 if [ "$FULL" = "--full" ]; then
   (cd /tmp && PYTHONPATH=/repo timeout 900 /venv/bin/python "$D/demo.py" >/tmp/demo_mut.log 2>&1); echo "demo on mutated tree: exit $?"
   /verif/tools/baseline_check.py /repo | head -5
